@@ -3,6 +3,7 @@
 //                (per variable: x, x_reported, v_fdiff, v_reported, potential/kinetic energy, ft_reported,
 //                applied_force(); per bias: bias_energy, centres, acc_work, abmd reference, alb couplings)
 //   capture      send the module's log to a buffer;  wlog: print which files it reported writing since the last wlog
+//   diskcopy A B copy file A as it is on disk now (no flush) to B
 //   gdump        print the count / force-sum grids of ABF biases and the hills-energy grid of metadynamics biases
 //   flush        flush all output streams of the module (files are then complete on disk)
 //   chdir D      change the working directory (output files are created relative to it)
@@ -35,6 +36,7 @@
 #include "colvarbias_alb.h"
 #include "colvarbias_abf.h"
 #include "colvarbias_meta.h"
+#include "colvarbias_histogram.h"
 #include "colvargrid.h"
 
 struct c19_session : public vsim_session {
@@ -74,6 +76,13 @@ struct c19_session : public vsim_session {
       }
       return true;
     }
+    if (cmd == "diskcopy") {
+      // the file as it is on disk right now (what a crash would leave), without flushing anything
+      std::ifstream in(a[0].c_str(), std::ios::binary);
+      std::ofstream outf(a[1].c_str(), std::ios::binary);
+      if (in) outf << in.rdbuf();
+      return true;
+    }
     if (cmd == "gdump") {
       // the grids behind the output files of ABF (counts, force sums) and metadynamics (tabulated hills energy)
       for (colvarbias *b : proxy->colvars->biases) {
@@ -83,6 +92,13 @@ struct c19_session : public vsim_session {
           o << " gradients=";
           for (size_t i = 0; i < a->gradients->data.size(); i++) { if (i) o << ","; o << vs_hex(a->gradients->data[i]); }
           o << "\n";
+        }
+        if (colvarbias_histogram *h = dynamic_cast<colvarbias_histogram *>(b)) {
+          if (h->grid) {
+            o << "GH " << h->name << " it=" << cvm::step_absolute() << " data=";
+            for (size_t i = 0; i < h->grid->data.size(); i++) { if (i) o << ","; o << vs_hex(h->grid->data[i]); }
+            o << "\n";
+          }
         }
         if (colvarbias_meta *m = dynamic_cast<colvarbias_meta *>(b)) {
           if (m->hills_energy) {
